@@ -170,3 +170,10 @@ package basicauth
 //@   at call invoke:(io.Writer).Write before [the_whole_configured_password_is_hashed] len(arg0) == len(passw)
 //@ func PlainMatcher$1
 //@   at call invoke:(io.Writer).Write before [the_whole_offered_password_is_hashed] len(arg0) == len(pw)
+
+//@ unit matcher_choice frames=on props=C03,C11 nilchecks=on filter=`basicauth\.passwordMatcher$`
+//@ // what basicauth_parse assumes of passwordMatcher (it writes nothing the parser holds), verified
+//@ use @verif/specs/stdlib.spec:stdlib
+//@ func GetHtpasswdMatcher
+//@ func PlainMatcher
+//@ func passwordMatcher
